@@ -49,7 +49,7 @@ def receipts_harness(prop, tier, seed, cov, log):
     cov['receipt_scenarios'] = cov['receipt_submissions'] = cov['receipt_forwarded'] = 0
     # twice: linked with cgo (libsecp256k1 recovers the signer) and without (the pure Go implementation: how the
     # release binary is built); the two must refuse the same signatures
-    for exe, nrounds in (('receipts', rounds), ('receipts-nocgo', rounds if tier != 'quick' else 4)):
+    for exe, nrounds in (('receipts', rounds), ('receipts-nocgo', rounds if tier != 'quick' else 5)):
         r = subprocess.run([f'{L.BIN}/{exe}', '-seed', str(seed), '-rounds', str(nrounds), '-per', '80', '-cap', '128'],
                            capture_output=True, text=True, env=L.GOENV, timeout=1200)
         lines = [l for l in r.stdout.split('\n') if l.startswith('RCPT ')]
